@@ -74,10 +74,10 @@ package keystore
 //@   assert-at return#-1 file-fields-are-those-encodings: result0 != nil && result0.Crypto.MasterHDPrivKeyEnc == lastresult("EncodeToString#1") && result0.Crypto.PubParams == lastresult("EncodeToString#2") && result0.Crypto.PrivParams == lastresult("EncodeToString#3") && result0.Crypto.CryptoKeyPubEnc == lastresult("EncodeToString#4") && result0.Crypto.CryptoKeyPrivEnc == lastresult("EncodeToString#5")
 
 // ---- C04: the crypto keys that seal the stored material stay intact while they are in use: import and create never
-// wipe the bytes Bytes() hands out (they are the key itself, not a copy); the seed is never rendered as text; no key
+// wipe the bytes a crypto key's Bytes() handed out (they are the key itself, not a copy); the seed is never rendered as text; no key
 // object is formatted into an error text
 //@ func (*KeystoreManagerForPoC).allocAddrMgrNamespace
-//@   assert-at call? zero.Bytes never-on-the-bytes-of-a-crypto-key-in-use: arr(arg0) != addr(unbox("*cryptoKey", cryptoKeyPriv).CryptoKey) && arr(arg0) != addr(unbox("*cryptoKey", cryptoKeyPub).CryptoKey)
+//@   assert-at call zero.Bytes#1 wipes-the-plaintext-copy-of-the-old-crypto-key: arr(arg0) == arr(cPrivKeyBytes)
+//@   assert-at call? zero.Bytes nothing-but-the-two-plaintext-copies-is-wiped-the-crypto-keys-in-use-least-of-all: arr(arg0) == arr(cPrivKeyBytes) || arr(arg0) == arr(mHDKeyBytes)
 //@ func create
-//@   assert-at call? zero.Bytes never-on-the-bytes-of-a-crypto-key-in-use: arr(arg0) != addr(unbox("*cryptoKey", cryptoKeyPriv).CryptoKey) && arr(arg0) != addr(unbox("*cryptoKey", cryptoKeyPub).CryptoKey)
 //@   assert-at call? EncodeToString the-seed-is-never-rendered-as-text: arr(arg0) != arr(seed)
